@@ -51,9 +51,11 @@ def schedules(maxcalls, maxbatch, with_solve):
 class Group:
     """A set of real solvers driven by one schedule; every solver not in a call is observed after every step of any other."""
 
-    def __init__(self, rng, k, tag, lazy, share_problem):
+    def __init__(self, rng, k, tag, lazy, share_problem, share_params=False):
         self.rng = rng
         self.specs = []
+        self.shared_params = None
+        self.share_params = share_params
         n0 = rng.choice([1, 2, 2, 3])
         shared = None
         for j in range(k):
@@ -68,6 +70,15 @@ class Group:
             else:
                 prob = FnProblem(n, lo, up, f, name)
             r_, eps, limit, m = scen.rand_params(rng, n)
+            if share_params and self.specs:
+                # every solver of the group is built with ONE SolverParameters object (same r, eps, limit; density must fit the dimension)
+                r_, eps, limit = self.specs[0]["r"], self.specs[0]["eps"], self.specs[0]["limit"]
+                m = self.specs[0]["m"]
+                if n * m > 50:
+                    n = self.specs[0]["prob"].numberOfFloatVariables
+                    lo, up = rand_box_solver(rng, n)
+                    name, f = objective_zoo(_r.Random(fseed), n, lo, up)
+                    prob = FnProblem(n, lo, up, f, name)
             self.specs.append(dict(prob=prob, r=r_, eps=eps, limit=limit, m=m, tag="%s/%s#%d" % (prob.name, tag, j + 1),
                                    listener=rng.choice(["rec", "none"])))
         self.runs = {}
@@ -80,8 +91,14 @@ class Group:
 
     def mk(self, j, solo=False):
         sp = self.specs[j - 1]
+        params = None
+        if self.share_params and not solo:
+            if self.shared_params is None:
+                from iOpt.solver_parametrs import SolverParameters
+                self.shared_params = SolverParameters(eps=sp["eps"], r=sp["r"], itersLimit=sp["limit"], evolventDensity=sp["m"], refineSolution=False)
+            params = self.shared_params
         return SolverRun(sp["prob"], r=sp["r"], eps=sp["eps"], limit=sp["limit"], m=sp["m"], tag=sp["tag"] + ("/solo" if solo else ""),
-                         listener=sp["listener"], full_snap=True)
+                         listener=sp["listener"], full_snap=True, params=params)
 
     def get(self, j):
         if j not in self.runs:
@@ -175,7 +192,7 @@ def run(ctx):
     runs = []
     samples = []
     for si, sch in enumerate(chosen):
-        g = Group(rng, 2, "sched%d" % si, lazy=rng.random() < 0.5, share_problem=rng.random() < 0.2)
+        g = Group(rng, 2, "sched%d" % si, lazy=rng.random() < 0.5, share_problem=rng.random() < 0.2, share_params=rng.random() < 0.2)
         g.play(sch)
         runs += g.finish(pairs, list(sch))
         if si in (0, len(full), len(chosen) - 1):
